@@ -102,7 +102,10 @@ def handle (op : String) (j : Json) : Option (R Json) :=
             -- `if saturation_capacity:` — a zero capacity is "no limit"
             pure (if c[0]! = 0 then none else some c[0]!)
       let warn ← getBool j "warn"
-      let dn := (idx R C).map fun p => adcFrame Rat.floor cap gain get p.1 p.2
+      -- run through the regenerated step order (Gen.adcSteps); an ill-typed order answers -1 everywhere
+      let dn := (idx R C).map fun p => match adcFromSteps Rat.floor cap (gain.at p.1 p.2) (get p.1 p.2) with
+        | some (.inr v) => v
+        | _ => -1
       pure (okJ [("dn", ints dn.toArray), ("warns", Json.bool (adcWarns warn cap ⟨R, C, get⟩))])
   | _ => none
 
